@@ -855,6 +855,10 @@ fn xlsx_sheet_data(c: &XlsxCase) -> String {
     let p = &c.pfx;
     let mut o = String::new();
     for (i, cell) in c.cells.iter().enumerate() {
+        if cell.t.as_deref() == Some("^table") {
+            // not a cell: the whole shared string table, observed through the verif hook
+            continue;
+        }
         o.push_str(&format!("<{} r=\"{}\"><{} r=\"A{}\"", q(p, "row"), i + 1, q(p, "c"), i + 1));
         if let Some(t) = &cell.t {
             // `str^f`: a t="str" cell observed through worksheet_formula (its formula text)
@@ -1062,6 +1066,118 @@ fn ods_bytes(c: &OdsCase) -> Vec<u8> {
 }
 
 // ------------------------------------------------------------------------------------------------
+// event soup: arbitrary (also ill-nested) element sequences, to tie the model's state machines to the code
+// beyond the well-formed forms. Compared implementation vs model only (no oracle: outside the property).
+// ------------------------------------------------------------------------------------------------
+
+fn soup(rng: &mut Rng, names: &[&str], attrs_for: &dyn Fn(&mut Rng, &str) -> Vec<(String, String)>, max: u64) -> Vec<X> {
+    let mut out: Vec<X> = vec![];
+    let mut stack: Vec<String> = vec![];
+    let n = rng.below(max + 1);
+    for _ in 0..n {
+        let chaos = rng.chance(1, 4);
+        match rng.below(10) {
+            0..=3 => {
+                let name = rng.pick(names).to_string();
+                let a = attrs_for(rng, &name);
+                if rng.chance(1, 5) {
+                    out.push(X::Empty(name, a));
+                } else {
+                    stack.push(name.clone());
+                    out.push(X::Start(name, a));
+                }
+            }
+            4..=6 => {
+                // quick-xml (check_end_names = false) accepts any name in an end tag but rejects an end tag
+                // with nothing open: the soup keeps the depth non-negative, the names are free
+                if let Some(open) = stack.pop() {
+                    // (the end tag of an annotation keeps its name: the reader has no Eof arm while skipping one)
+                    out.push(X::End(if chaos && open != "office:annotation" { rng.pick(names).to_string() } else { open }));
+                }
+            }
+            7 | 8 => {
+                let t = *rng.pick(&["a", "b c", " ", "&<", "é😀", "12", "\n"]);
+                let e = if rng.chance(1, 4) { Esc::CData } else { Esc::Plain };
+                for x in chunks(rng, t, e) {
+                    match x {
+                        X::Text(s, m) => push_text(&mut out, &s, m),
+                        x => out.push(x),
+                    }
+                }
+            }
+            _ => out.push(X::Comment),
+        }
+    }
+    // usually close what is open (always when an annotation is open)
+    if rng.chance(3, 4) || stack.iter().any(|n| n == "office:annotation") {
+        while let Some(nm) = stack.pop() {
+            out.push(X::End(nm));
+        }
+    }
+    out
+}
+
+fn no_attrs(_: &mut Rng, _: &str) -> Vec<(String, String)> {
+    vec![]
+}
+
+const SI_NAMES: &[&str] = &["si", "r", "rPh", "t", "rPr", "phoneticPr", "x:t", "x:r", "x:si", "x:rPh", "b", "is", "sst"];
+const IS_NAMES: &[&str] = &["is", "r", "rPh", "t", "rPr", "x:t", "x:r", "x:is", "x:rPh", "v", "f", "si"];
+const ODS_NAMES: &[&str] = &["text:p", "text:s", "text:span", "office:annotation", "text:a", "p", "text:tab", "dc:date", "s"];
+
+fn gen_soup_cases(rng: &mut Rng) -> Vec<Case> {
+    let mut v = vec![];
+    // 1. the shared string part is soup; one cell per string the model finds (plus a sentinel)
+    let pfx = if rng.chance(1, 3) { "x" } else { "" };
+    let mut sst = vec![X::Start(
+        q(pfx, "sst"),
+        vec![(if pfx.is_empty() { "xmlns".to_string() } else { format!("xmlns:{pfx}") }, xlsxw::NS_MAIN.to_string())],
+    )];
+    sst.extend(soup(rng, SI_NAMES, &no_attrs, 24));
+    sst.push(en(&q(pfx, "sst")));
+    let cells = vec![
+        CellCase {
+            t: Some("str".into()),
+            kids: vec![st(&q(pfx, "v"), &[]), tx("sentinel"), en(&q(pfx, "v"))],
+            expect: None,
+            label: "soup.xlsx.sst.sentinel".into(),
+        },
+        CellCase { t: Some("^table".into()), kids: vec![], expect: None, label: "soup.xlsx.sst.table".into() },
+    ];
+    v.push(Case::Xlsx(XlsxCase { pfx: pfx.into(), sst, cells }));
+    // 2. one cell whose children are soup (inline string, value, formula in any order and nesting)
+    let pfx = if rng.chance(1, 3) { "x" } else { "" };
+    let mut kids = vec![];
+    if rng.chance(2, 3) {
+        kids.push(st(&q(pfx, "is"), &[]));
+        kids.extend(soup(rng, IS_NAMES, &no_attrs, 16));
+        kids.push(en(&q(pfx, "is")));
+    } else {
+        kids.extend(soup(rng, &["is", "v", "f", "t", "r", "x:v", "x:f", "x:is"], &no_attrs, 10));
+    }
+    let t = *rng.pick(&[Some("inlineStr"), Some("str"), Some("s"), Some("is")]);
+    let sst1 = sst_of(pfx, vec![wrap_item(pfx, "si", vec![st(&q(pfx, "t"), &[]), tx("zero"), en(&q(pfx, "t"))], false)]);
+    v.push(Case::Xlsx(XlsxCase {
+        pfx: pfx.into(),
+        sst: sst1,
+        cells: vec![CellCase { t: t.map(|x| x.to_string()), kids, expect: None, label: "soup.xlsx.cell".into() }],
+    }));
+    // 3. one ods string cell whose content is soup
+    let ods_attrs = |rng: &mut Rng, name: &str| -> Vec<(String, String)> {
+        if name == "text:s" && rng.chance(2, 3) {
+            let c = *rng.pick(&["0", "1", "2", "3", "007", "+4", "x", "", "-1", " 2", "2 ", "18446744073709551616"]);
+            let k = *rng.pick(&["text:c", "text:c", "text:c", "c", "text:d"]);
+            vec![(k.to_string(), c.to_string())]
+        } else {
+            vec![]
+        }
+    };
+    let kids = soup(rng, ODS_NAMES, &ods_attrs, 16);
+    v.push(Case::Ods(OdsCase { cells: vec![CellCase { t: if rng.chance(1, 5) { Some("covered".into()) } else { None }, kids, expect: None, label: "soup.ods.cell".into() }] }));
+    v
+}
+
+// ------------------------------------------------------------------------------------------------
 // xlsb / xls forms
 // ------------------------------------------------------------------------------------------------
 
@@ -1258,6 +1374,22 @@ fn run_case_inner(case: &Case, drv: &mut Driver, rep: &mut Stats) -> Outcome {
                 let mut wb: Xlsx<_> = Xlsx::new(Cursor::new(bytes)).map_err(|e| format!("open: {e:?}"))?;
                 wb.worksheet_range("S").map_err(|e| format!("range: {e:?}"))
             });
+            if let Some(ti) = c.cells.iter().position(|x| x.t.as_deref() == Some("^table")) {
+                #[cfg(feature = "hooks")]
+                {
+                    let b3 = xlsx_bytes(c);
+                    imp[ti] = match guarded(|| Xlsx::new(Cursor::new(b3)).map(|wb| calamine::verif_hooks::xlsx::shared_strings(&wb))) {
+                        Ok(Ok(l)) => format!("S:{}", hx(l.iter().map(|s| hx(s.as_bytes())).collect::<Vec<_>>().join(",").as_bytes())),
+                        Ok(Err(e)) => format!("err:{}", clip(&format!("{e:?}"))),
+                        Err(p) => format!("panic:{}", clip(&p)),
+                    };
+                }
+                #[cfg(not(feature = "hooks"))]
+                {
+                    let _ = ti;
+                    rep.count("hooks_unavailable");
+                }
+            }
             if want_f {
                 let n = c.cells.len();
                 let fcol: Vec<String> = match guarded(|| -> Result<calamine::Range<String>, String> {
@@ -1294,6 +1426,10 @@ fn run_case_inner(case: &Case, drv: &mut Driver, rep: &mut Stats) -> Outcome {
                     reqs.push(format!("fmla {} E{}", wire(&cell.kids), cname));
                     continue;
                 }
+                if cell.t.as_deref() == Some("^table") {
+                    reqs.push("^".into());
+                    continue;
+                }
                 let arg = if small || cell.t.as_deref() != Some("s") { &table_arg } else { "" };
                 if arg.is_empty() && cell.t.as_deref() == Some("s") {
                     reqs.push(String::new());
@@ -1302,7 +1438,7 @@ fn run_case_inner(case: &Case, drv: &mut Driver, rep: &mut Stats) -> Outcome {
                     reqs.push(format!("cell {} {} {} E{}", cell.t.clone().unwrap_or("-".into()), arg, wire(&cell.kids), cname));
                 }
             }
-            let live: Vec<&String> = reqs.iter().filter(|r| !r.is_empty()).collect();
+            let live: Vec<&String> = reqs.iter().filter(|r| !r.is_empty() && r.as_str() != "^").collect();
             let replies: Vec<String> = if live.is_empty() {
                 vec![]
             } else {
@@ -1313,6 +1449,12 @@ fn run_case_inner(case: &Case, drv: &mut Driver, rep: &mut Stats) -> Outcome {
             for (i, cell) in c.cells.iter().enumerate() {
                 let model = if let Some(e) = &table_err {
                     e.clone()
+                } else if reqs[i] == "^" {
+                    if cfg!(feature = "hooks") {
+                        format!("S:{}", hx(table.join(",").as_bytes()))
+                    } else {
+                        imp[i].clone()
+                    }
                 } else if reqs[i].is_empty() {
                     // big table: the index lookup is done here on the model's table
                     rep.count("model.shared_lookup_outside_driver");
@@ -1665,6 +1807,12 @@ fn corpus() -> Vec<Case> {
             CellCase { t: Some("inlineStr".into()), kids: vec![st("is", &[]), em("t", &[]), en("is")], expect: Some("".into()), label: "xlsx.inline.plain".into() },
         ],
     }));
+    // a shared-string index past the table: an error, not a panic (observed: outside this property)
+    v.push(Case::Xlsx(XlsxCase {
+        pfx: String::new(),
+        sst: sst_of("", vec![si("", t("", "only"))]),
+        cells: vec![CellCase { t: Some("s".into()), kids: vec![st("v", &[]), tx("1"), en("v")], expect: None, label: "xlsx.shared.index_out_of_range".into() }],
+    }));
     // xlsb / xls: strings that begin like a byte-order mark (UTF-16 decoding must not sniff)
     for s in ["\u{FEFF}bom", "\u{BBEF}\u{BF}utf8", "\u{FFFE}be", "x\u{FEFF}"] {
         let u: Vec<u16> = s.encode_utf16().collect();
@@ -1752,6 +1900,9 @@ fn main() {
                 }
             ));
             jobs.push(Job::Str { i, s, seed: rng.next() });
+            if i % 2 == 0 {
+                jobs.push(Job::Soup { seed: rng.next() });
+            }
             // keep memory flat in the thorough tier
             if jobs.len() >= 64 * threads {
                 run_batch(&mut jobs, &mut drivers, &mut rep);
@@ -1769,11 +1920,14 @@ enum Job {
     Fixed(Case),
     /// every storage form of every format for one string
     Str { i: u64, s: String, seed: u64 },
+    /// ill-nested event soup (implementation vs model only)
+    Soup { seed: u64 },
 }
 
 fn expand(job: Job) -> Vec<Case> {
     match job {
         Job::Fixed(c) => vec![c],
+        Job::Soup { seed } => gen_soup_cases(&mut Rng(seed)),
         Job::Str { i, s, seed } => {
             let mut cases = vec![];
             let mut r = Rng(seed);
